@@ -8,9 +8,12 @@ CPLX = ['CSQRT', 'CPOW', 'CEXP', 'CLOG', 'CSIN', 'CCOS', 'CTAN', 'CSINH', 'CCOSH
 
 def _configs(tier):
     out = []
+    # strides and lengths beyond 2^32 over sparsely backed mappings (unsanitised, double build)
+    giant = dict(name='giant', real=8, have=REAL_SW + CPLX, harness=['h_real_giant.c'], flavour='fast', nworkers=6 if tier == 'quick' else 11)
     if tier == 'quick':
         return [dict(name='all-on-f64', real=8, have=REAL_SW + CPLX), dict(name='all-off-f64', real=8, have=CPLX),
-                dict(name='all-off-f32', real=4, have=CPLX, zero=REAL_SW[::2])]
+                dict(name='all-off-f32', real=4, have=CPLX, zero=REAL_SW[::2]), giant]
+    out.append(giant)
     for real, tag in [(8, 'f64'), (4, 'f32')]:
         out.append(dict(name='all-on-' + tag, real=real, have=REAL_SW + CPLX))
         out.append(dict(name='all-off-' + tag, real=real, have=CPLX, zero=REAL_SW[::2]))
@@ -36,7 +39,7 @@ SPEC = dict(
          'cache/shift length 0..9. Judgement |err| <= 8*eps*|r|*max(1,kappa) + one subnormal ulp with kappa measured in quad. '
          'distinct_nontrivial = distinct (function, sign/quadrant/regime class, decade of the argument) cells judged.',
     exhaustive={'quick': 'array helpers: every (block length 0..17, cache/shift length 0..9)', 'thorough': 'array helpers: every (block length 0..17, cache/shift length 0..9)'},
-    require=['components-around-sqrt-of-range-limits', 'means-of-elements-near-the-largest-finite-value', 'judged/cart2sph-origin-and-z-axis', 'judged/cart2pol-origin', 'large-array-lengths', 'judged/asinh/macro', 'judged/asinh/exported', 'judged/acosh/exported', 'judged/atanh/exported', 'judged/expm1/exported', 'judged/log1p/exported',
+    require=['giant-stride-reductions', 'giant-stride-copy-swap', 'giant-count-reduction', 'components-around-sqrt-of-range-limits', 'means-of-elements-near-the-largest-finite-value', 'judged/cart2sph-origin-and-z-axis', 'judged/cart2pol-origin', 'large-array-lengths', 'judged/asinh/macro', 'judged/asinh/exported', 'judged/acosh/exported', 'judged/atanh/exported', 'judged/expm1/exported', 'judged/log1p/exported',
              'judged/log1p/macro', 'judged/atan2/macro', 'judged/atan2/exported', 'judged/atan2/exact-y-axis', 'judged/norm2', 'judged/norm3', 'judged/hypot',
              'judged/norm', 'judged/norm_', 'norm-no-spurious-overflow-underflow', 'judged/cart2pol', 'judged/pol2cart', 'judged/cart2sph', 'judged/sph2cart',
              'polar-round-trip', 'sphere-round-trip', 'judged/rad2deg', 'judged/deg2rad', 'judged/rsqrt', 'judged/sum', 'judged/sum_', 'judged/sum1',
@@ -51,5 +54,5 @@ SPEC = dict(
                'exported body, in every build configuration of the 7 real A_HAVE_* switches and both real widths; exact array model (exhaustive over small '
                'lengths) for the data-movement helpers. Arguments are unbounded; stratified sampling is the reachable level.',
     level_note='trusted: libquadmath, finite-difference condition estimate, the array model in harness/h_real.c',
-    technique='differential testing against libquadmath per build configuration, exact array model with canaries, ASan/UBSan',
+    technique='differential testing against libquadmath per build configuration, exact array model with canaries, ASan/UBSan; strides and lengths beyond 2^32 over sparsely backed mappings',
 )
